@@ -1,6 +1,7 @@
 package harness
 
 import (
+	"encoding/json"
 	"fmt"
 	"os"
 	"strings"
@@ -336,6 +337,32 @@ func TestC13(t *testing.T) {
 func TestC14(t *testing.T) {
 	st := NewStats("C14")
 	defer st.Flush()
+	if os.Getenv("VERIF_REPLAY") != "" {
+		// a saved late-funds case carries its variant chain: replay the comparison itself
+		var rsc Scenario
+		if loadReplay(t, &rsc) && rsc.Aux != nil && rsc.Aux["late_variant"] != nil {
+			var variant Scenario
+			b, _ := json.Marshal(rsc.Aux["late_variant"])
+			if err := json.Unmarshal(b, &variant); err != nil {
+				t.Fatalf("harness: replay: %v", err)
+			}
+			s2 := uint32(0)
+			if f, ok := rsc.Aux["late_snapshot"].(float64); ok {
+				s2 = uint32(f)
+			}
+			dir, done := caseDir()
+			defer done()
+			r1, d1, err1 := RunPlain(&rsc, dir+"/base", NodeOpts{})
+			r2, d2, err2 := RunPlain(&variant, dir+"/variant", NodeOpts{})
+			if err1 != nil || err2 != nil || !r1.OK(rsc.Chain.Tip) || !r2.OK(variant.Chain.Tip) {
+				t.Fatalf("harness: replay chains failed: %v %v", err1, err2)
+			}
+			if w, g := stakingRows(d1, s2), stakingRows(d2, s2); strings.Join(w, "\n") != strings.Join(g, "\n") {
+				fail(st, t, fmt.Sprintf("funds that arrived after the previous snapshot changed the payouts of snapshot %d:\n%s", s2, lineDiff(strings.Join(w, "\n")+"\n", strings.Join(g, "\n")+"\n")), &rsc)
+			}
+			return
+		}
+	}
 	runModelProperty(t, st, "C14", func(rt *rapid.T) modelCase {
 		sc, info := GenStakingScenario(rt, st)
 		nt := ""
@@ -689,6 +716,41 @@ func lateFundsVariant(rt *rapid.T, sc *Scenario, base Dump) (string, bool) {
 			}
 		}
 	}
+	// ... and whose own earlier batches are all settled before snapshot s1 is taken: a conversion
+	// entered before s1 that executes at or after s1 (or is still pending) lowers a balance after the
+	// first snapshot, and late funds may then legitimately raise min(previous, current) again
+	settledAt := map[string][2]int64{} // entry hash -> (height, executed)
+	for _, r := range base["pn_history_txbatch"] {
+		var eh string
+		var hh, ex int64
+		for _, f := range strings.Fields(r) {
+			switch {
+			case strings.HasPrefix(f, "entry_hash=x"):
+				eh = f[len("entry_hash=x"):]
+			case strings.HasPrefix(f, "height="):
+				fmt.Sscan(f[len("height="):], &hh)
+			case strings.HasPrefix(f, "executed="):
+				fmt.Sscan(f[len("executed="):], &ex)
+			}
+		}
+		settledAt[eh] = [2]int64{hh, ex}
+	}
+	for _, r := range base["pn_history_transaction"] {
+		var eh, from string
+		for _, f := range strings.Fields(r) {
+			switch {
+			case strings.HasPrefix(f, "entry_hash=x"):
+				eh = f[len("entry_hash=x"):]
+			case strings.HasPrefix(f, "from_address=x"):
+				from = f[len("from_address=x"):]
+			}
+		}
+		if s, ok := settledAt[eh]; ok && strings.Contains(r, "action_type=") && !strings.Contains(r, "action_type=3 ") {
+			if s[0] >= int64(s1)-1 || s[1] >= int64(s1) || s[1] == 0 {
+				busy[from] = true
+			}
+		}
+	}
 	var x Actor
 	found := false
 	for i := 0; i < 40 && !found; i++ {
@@ -729,6 +791,11 @@ func lateFundsVariant(rt *rapid.T, sc *Scenario, base Dump) (string, bool) {
 	}
 	want, got := stakingRows(base, s2), stakingRows(d, s2)
 	if strings.Join(want, "\n") != strings.Join(got, "\n") {
+		if sc.Aux == nil {
+			sc.Aux = map[string]interface{}{}
+		}
+		sc.Aux["late_variant"] = variant // the saved case replays base and variant
+		sc.Aux["late_snapshot"] = s2
 		return fmt.Sprintf("funds that arrived after snapshot %d changed the payouts of snapshot %d: %s… converted %d PEG into %s at height %d\nbase:    %s\nvariant: %s",
 			s1, s2, x.AddrHex()[:12], amt, dst, h, lineDiff(strings.Join(want, "\n")+"\n", strings.Join(got, "\n")+"\n"), ""), executed
 	}
